@@ -593,6 +593,31 @@ def blocks_keep_identity(ctx: Ctx, rep: Report, rid: str = "R16.18") -> None:
             rep.violation("Acl.group", snippet(c, 60), "a block that is rebuilt gets a fresh identifier and an empty note: every operation that re-groups (items setter, port_nr / protocol_nr / type / platform switches, ungroup_ports, delete_shadow) loses the identifier and the note of every AceGroup of a grouped ACL", where(f, c), inp="acl = Acl(text, group_by='=== '); acl.items[0].note = 'N'; acl.port_nr = True; acl.items[0].note == ''")
 
 
+def dicts_rebuilt_whole(ctx: Ctx, rep: Report, rid: str = "R16.19") -> None:
+    """A member that is handed over as exported data (a dict) is rebuilt from ALL of it: the construction in the dict
+    branch of an items builder receives `**<the item>` itself (a hand-picked subset of keys drops what it does not list:
+    the members of a nested group, the note, the sequence number)."""
+    rep.rule(rid)
+    n = 0
+    for q in ("AceGroup.items.setter", "Acl.items.setter", "AddrGroup.items.setter", "AddressBase._init_items"):
+        f = ctx.prog.find_func(q)
+        if f is None:
+            continue
+        for lp in [x for x in own_nodes(f.node) if isinstance(x, ast.For) and isinstance(x.target, ast.Name)]:
+            var = lp.target.id
+            for br in [x for x in ast.walk(lp) if isinstance(x, ast.If) and isinstance(x.test, ast.Call) and src(x.test.func) == "isinstance" and len(x.test.args) == 2 and src(x.test.args[0]) == var and "dict" in src(x.test.args[1])]:
+                ctors = [c for b in br.body for c in ast.walk(b) if isinstance(c, ast.Call) and any(k.arg is None for k in c.keywords)]
+                for c in ctors:
+                    n += 1
+                    rep.instance()
+                    spreads = [k.value for k in c.keywords if k.arg is None]
+                    if all(isinstance(v, ast.Name) and v.id == var for v in spreads):
+                        rep.ok(f"{q}: {snippet(c, 40)}", f"rebuilt from **{var}, the whole exported dict", where=where(f, c))
+                    else:
+                        rep.violation(q, snippet(c, 70), f"the member is rebuilt from a part of its exported data, not from **{var}: what the part leaves out (members of a nested group, note, number) is lost on every copy, re-initialisation and platform change", where(f, c), inp="an address group that has a member which is itself a group; platform change")
+    rep.floor(2, "dict branches of the items builders") if n else None
+
+
 def dict_builders_pass_everything(ctx: Ctx, rep: Report, rid: str = "R16.14", factories: bool = False) -> None:
     """A builder that turns an exported dict into an object (`_dict_to_*`, taking **kwargs) hands the whole dict to the
     constructor (or to a sibling builder) on every return: a builder that passes the text alone drops note and uuid."""
@@ -746,6 +771,7 @@ def run(ctx: Ctx, rep: Report, tier: str) -> None:
     settings_propagation(ctx, rep)
     dict_builders_pass_everything(ctx, rep)
     objects_adopted_once(ctx, rep)
+    dicts_rebuilt_whole(ctx, rep)
     blocks_keep_identity(ctx, rep)
     # R16.15 premise: the exported line is read back to the same data: every selectable port name is in the splitter's
     # vocabulary (C09 R09.5)
